@@ -25,7 +25,7 @@ LEVEL_TEXT = ("Lean theorems over all event histories of one object in one proce
               "which reproduces on the real code (known finding F9). Model tied to the code per cycle on seeded simulations.")
 THEOREMS = [("Kopf.Props.C14", "Kopf.C14." + n) for n in [
     "invoked_gated", "resume_invoked_only_initial", "not_for_new", "after_fully_handled_never",
-    "resume_never_again_partial", "completed_never_again_partial", "eligible_selected", "flipflop_reruns_witness"]]
+    "resume_never_again_partial", "completed_never_again_partial", "eligible_selected", "reason_not_noop_of_initial", "flipflop_reruns_witness"]]
 RULE = ("seeded scenarios: objects handled by a first incarnation, then stop/kill + restart; 1-3 resume handlers (label filters, "
         "deleted opt-in, failures/retries) next to create/update/delete handlers; re-listings (history compaction + 410), "
         "stream reconnects, edits and label flip-flops before/during/after the resume cycle, deletions; one case = one processing "
